@@ -738,7 +738,7 @@ Lemma expected_subtree_spec q : forall t s d,
 Proof.
   induction q as [|i q IH]; intros t s d H.
   - cbn in H. inversion H; subst. rewrite obs_tree_sel, filter_sel. unfold expected_subtree.
-    cbn [prefixb length]. rewrite (filter_ext_in' _ (fun ps => true && within_depth d (S (length (fst ps))))).
+    cbn [prefixb length]. rewrite (filter_ext_in' _ (fun ps : pos * tree => true && within_depth d (S (length (fst ps))))).
     + apply map_ext. intros [p x]. unfold lbl_of. cbn [fst snd]. rewrite Nat.sub_0_r. reflexivity.
     + intros [p x] _. cbn [fst]. rewrite Nat.sub_0_r. reflexivity.
   - destruct t as [g n a ks]. cbn [subtree_at tkids] in H.
@@ -747,7 +747,7 @@ Proof.
     rewrite filter_concat, map_mapi_from, map_concat, map_mapi_from.
     rewrite (concat_mapi_only _ i ks 0 k); [| lia | rewrite Nat.sub_0_r; exact Ek |].
     + rewrite filter_map_comm, map_map. cbn [fst snd].
-      rewrite (filter_ext_in' _ (fun ps => prefixb q (fst ps) && within_depth d (S (length (fst ps)) - length q))).
+      rewrite (filter_ext_in' _ (fun ps : pos * tree => prefixb q (fst ps) && within_depth d (S (length (fst ps)) - length q))).
       * apply map_ext. intros [p x]. reflexivity.
       * intros [p x] _. cbn [fst prefixb length]. rewrite Nat.eqb_refl. reflexivity.
     + intros j x Hj. rewrite filter_map_comm. rewrite filter_none; [reflexivity|].
@@ -777,3 +777,223 @@ Qed.
 
 Lemma addressed_valid tsep t s q : In q (addressed tsep t s) -> exists x, subtree_at t q = Some x.
 Proof. unfold addressed. intros H. apply filter_In in H as [H _]. apply positions_valid. exact H. Qed.
+
+(* ============================================================================================
+   10. The model satisfies prop_C14 (one-character tree separator)
+   ============================================================================================ *)
+
+Definition obs_of (m : res tree) : hobs :=
+  match m with Ret t => OTree (obs_tree t) | Raise e => OErr (exn_code e) end.
+
+Lemma val_eqb_refl v : val_eqb v v = true.
+Proof.
+  destruct v; cbn; try reflexivity; try apply Z.eqb_refl; try apply str_eqb_refl.
+  destruct b; reflexivity.
+Qed.
+
+Lemma attrs_eqb_refl a : attrs_eqb a a = true.
+Proof.
+  induction a as [|[k v] a IH]; cbn; [reflexivity|]. rewrite str_eqb_refl, val_eqb_refl, IH. reflexivity.
+Qed.
+
+Lemma lbl_eqb_refl l : lbl_eqb l l = true.
+Proof.
+  destruct l as [[d n] a]. cbn. rewrite Nat.eqb_refl, str_eqb_refl, attrs_eqb_refl. reflexivity.
+Qed.
+
+Lemma is_tree_refl l l' : l = l' -> is_tree (OTree l) l' = true.
+Proof.
+  intros <-. cbn. induction l as [|x l IH]; cbn; [reflexivity|]. rewrite lbl_eqb_refl, IH. reflexivity.
+Qed.
+
+Lemma copy_cut_only_obs N exact d t :
+  obs_tree (depth_cut d (copy_tree t)) = expected_prune t false N exact d.
+Proof. rewrite depth_cut_obs, obs_tree_copy, obs_tree_sel, filter_sel. reflexivity. Qed.
+
+Lemma copy_prune_then_cut_obs N exact d t :
+  N <> [] -> nested N = false ->
+  obs_tree (depth_cut d (prune_paths N exact (copy_tree t))) = expected_prune t true N exact d.
+Proof.
+  intros H1 H2. rewrite depth_cut_obs, (prune_paths_kept N exact _ H1 H2), sel_copy, filter_sel.
+  reflexivity.
+Qed.
+
+Theorem prune_tree_satisfies c t pp exact sep d :
+  sep <> [] ->
+  prop_C14 [c] t (CPrune pp exact sep d) (obs_of (prune_tree [c] t pp exact sep d)) = true.
+Proof.
+  intros Hsep. unfold prop_C14, prune_tree.
+  destruct (is_nil (norm_paths pp) && Nat.eqb d 0) eqn:E0; [reflexivity|].
+  destruct sep as [|x sep]; [contradiction|]. cbn [is_nil orb].
+  change (map (fun s => addressed [c] t (replace s (x :: sep) [c])) (norm_paths pp))
+    with (hits_of c (x :: sep) t (norm_paths pp)).
+  destruct (existsb is_nil (hits_of c (x :: sep) t (norm_paths pp))) eqn:E1.
+  - destruct (norm_paths pp) as [|s paths] eqn:Ep; [discriminate|]. cbn [is_nil].
+    destruct (locate_missing c (x :: sep) t (s :: paths) E1) as [e He]. rewrite He. reflexivity.
+  - destruct (singletons (hits_of c (x :: sep) t (norm_paths pp))) eqn:E2; [|reflexivity].
+    cbn [negb]. destruct (nested (concat (hits_of c (x :: sep) t (norm_paths pp)))) eqn:E3; [reflexivity|].
+    destruct (norm_paths pp) as [|s paths] eqn:Ep; cbn [is_nil negb].
+    + cbn [obs_of]. apply is_tree_refl. apply copy_cut_only_obs.
+    + rewrite (locate_found c (x :: sep) t (s :: paths) E2). cbn [obs_of]. apply is_tree_refl.
+      apply copy_prune_then_cut_obs; [|exact E3]. apply singletons_nonempty; [exact E2|discriminate].
+Qed.
+
+Lemma subtree_tail_obs x d :
+  obs_of (if Nat.eqb d 0 then Ret (copy_tree x) else Ret (depth_cut d (copy_tree (copy_tree x)))) =
+  OTree (filter (fun l => within_depth d (lbl_depth l)) (obs_tree x)).
+Proof.
+  destruct d as [|k]; cbn [Nat.eqb obs_of]; f_equal.
+  - rewrite obs_tree_copy. symmetry. apply filter_all. intros; reflexivity.
+  - rewrite depth_cut_obs, !obs_tree_copy. reflexivity.
+Qed.
+
+Theorem get_subtree_satisfies c t s d :
+  prop_C14 [c] t (CSubtree s d) (obs_of (get_subtree [c] t s d)) = true.
+Proof.
+  unfold prop_C14, get_subtree. cbn [is_nil]. destruct (is_nil s) eqn:Es.
+  - rewrite subtree_tail_obs. apply is_tree_refl. symmetry. apply (expected_subtree_spec [] t t d). reflexivity.
+  - unfold find_path. rewrite find_paths_addressed.
+    destruct (addressed [c] t s) as [|q [|q' l]] eqn:Ea; [reflexivity| |reflexivity].
+    destruct (addressed_valid [c] t s q) as [x Hx]; [rewrite Ea; left; reflexivity|].
+    rewrite subtree_at_copy, Hx. cbn [option_map]. rewrite subtree_tail_obs. apply is_tree_refl.
+    symmetry. apply (expected_subtree_spec q t x d Hx).
+Qed.
+
+Definition call_ok (call : hcall) : Prop :=
+  match call with CPrune _ _ sep _ => sep <> [] | CSubtree _ _ => True end.
+
+Theorem model_satisfies_C14 c t call :
+  call_ok call -> prop_C14 [c] t call (obs_of (run_call [c] t call)) = true.
+Proof.
+  destruct call as [pp exact sep d|s d]; cbn [call_ok run_call]; intros H.
+  - apply prune_tree_satisfies. exact H.
+  - apply get_subtree_satisfies.
+Qed.
+
+(* ============================================================================================
+   11. The clauses of C14, one by one, in explicit form
+   ============================================================================================ *)
+
+Lemma locate_length tsep sep t paths : forall N, locate tsep sep t paths = Ret N -> length N = length paths.
+Proof.
+  induction paths as [|s paths IH]; intros N H; cbn [locate] in H.
+  - inversion H. reflexivity.
+  - destruct (find_path tsep t (replace s sep tsep)) as [[p|]|e]; try discriminate.
+    destruct (locate tsep sep t paths) as [ps|e]; [|discriminate]. inversion H; subst.
+    cbn [length]. f_equal. apply IH. reflexivity.
+Qed.
+
+(* kept-node set, stated on the targets the model's own find_path returns: any separators *)
+Theorem prune_kept_model tsep sep t paths exact targets :
+  tsep <> [] -> sep <> [] -> paths <> [] ->
+  locate tsep sep (copy_tree t) paths = Ret targets -> nested targets = false ->
+  exists r, prune_tree tsep t (PList paths) exact sep 0 = Ret r /\
+            obs_tree r = map lbl_of (filter (fun ps => keep targets exact (fst ps)) (pre_pos t)).
+Proof.
+  intros Ht Hs Hp Hl Hn. unfold prune_tree. cbn [norm_paths].
+  destruct paths as [|s paths]; [contradiction|]. destruct tsep as [|x tsep]; [contradiction|].
+  destruct sep as [|y sep]; [contradiction|]. cbn [is_nil andb orb]. rewrite Hl.
+  eexists. split; [reflexivity|]. cbn [depth_cut].
+  assert (HN : targets <> []).
+  { intros ->. apply locate_length in Hl. discriminate. }
+  rewrite (prune_paths_kept targets exact _ HN Hn), sel_copy. reflexivity.
+Qed.
+
+(* the same on the spec's notion of addressing (one-character tree separator), with a depth limit *)
+Theorem prune_kept_spec c sep t paths exact d :
+  sep <> [] -> paths <> [] ->
+  singletons (hits_of c sep t paths) = true -> nested (concat (hits_of c sep t paths)) = false ->
+  exists r, prune_tree [c] t (PList paths) exact sep d = Ret r /\
+            obs_tree r = expected_prune t true (concat (hits_of c sep t paths)) exact d.
+Proof.
+  intros Hs Hp H1 H2. unfold prune_tree. cbn [norm_paths].
+  destruct paths as [|s paths]; [contradiction|]. destruct sep as [|y sep]; [contradiction|].
+  cbn [is_nil andb orb]. rewrite (locate_found c (y :: sep) t (s :: paths) H1).
+  eexists. split; [reflexivity|]. apply copy_prune_then_cut_obs; [|exact H2].
+  apply singletons_nonempty; [exact H1|discriminate].
+Qed.
+
+Theorem prune_depth tsep t exact sep d :
+  tsep <> [] -> sep <> [] -> 0 < d ->
+  exists r, prune_tree tsep t (PList []) exact sep d = Ret r /\
+            obs_tree r = filter (fun l => Nat.leb (lbl_depth l) d) (obs_tree t).
+Proof.
+  intros Ht Hs Hd. unfold prune_tree. cbn [norm_paths is_nil andb].
+  destruct d as [|k]; [lia|]. cbn [Nat.eqb]. destruct tsep as [|x tsep]; [contradiction|].
+  destruct sep as [|y sep]; [contradiction|]. cbn [is_nil orb].
+  eexists. split; [reflexivity|]. rewrite depth_cut_obs, obs_tree_copy. reflexivity.
+Qed.
+
+(* every tree prune_tree returns is an order-preserving selection of the input's nodes, each with
+   its original depth, name and attributes — whatever the paths, separators and flags *)
+Theorem prune_attrs_order tsep t pp exact sep d r :
+  prune_tree tsep t pp exact sep d = Ret r ->
+  exists P, obs_tree r = map lbl_of (filter (fun ps => P (fst ps)) (pre_pos t)).
+Proof.
+  unfold prune_tree. intros H.
+  destruct (is_nil (norm_paths pp) && Nat.eqb d 0); [discriminate|].
+  destruct (is_nil tsep || is_nil sep); [discriminate|].
+  destruct (is_nil (norm_paths pp)).
+  - inversion H; subst. exists (fun p => true && within_depth d (S (length p))).
+    rewrite depth_cut_obs, obs_tree_copy, obs_tree_sel, filter_sel. reflexivity.
+  - destruct (locate tsep sep (copy_tree t) (norm_paths pp)) as [N|e]; [|discriminate].
+    inversion H; subst.
+    exists (fun p => survive (fun c => negb (detached N exact c)) p && within_depth d (S (length p))).
+    unfold prune_paths. rewrite depth_cut_obs, filter_tree_obs, sel_copy, filter_sel. reflexivity.
+Qed.
+
+Theorem missing_path_error c sep t paths exact d s :
+  sep <> [] -> In s paths -> addressed [c] t (replace s sep [c]) = [] ->
+  exists e, prune_tree [c] t (PList paths) exact sep d = Raise e.
+Proof.
+  intros Hs Hin Ha. unfold prune_tree. cbn [norm_paths].
+  destruct paths as [|s0 paths]; [contradiction|]. destruct sep as [|y sep]; [contradiction|].
+  cbn [is_nil andb orb].
+  assert (E : existsb is_nil (hits_of c (y :: sep) t (s0 :: paths)) = true).
+  { apply existsb_exists. exists []. split; [|reflexivity]. unfold hits_of. rewrite <- Ha.
+    apply (in_map (fun s => addressed [c] t (replace s (y :: sep) [c]))). exact Hin. }
+  destruct (locate_missing c (y :: sep) t (s0 :: paths) E) as [e He]. rewrite He. exists e. reflexivity.
+Qed.
+
+Theorem missing_subtree_error c t s d :
+  s <> [] -> addressed [c] t s = [] -> get_subtree [c] t s d = Raise ValueError.
+Proof.
+  intros Hs Ha. unfold get_subtree. cbn [is_nil]. destruct s as [|x s]; [contradiction|]. cbn [is_nil].
+  unfold find_path. rewrite find_paths_addressed, Ha. reflexivity.
+Qed.
+
+Lemma subtree_tail_ret x d :
+  exists r, (if Nat.eqb d 0 then Ret (copy_tree x) else Ret (depth_cut d (copy_tree (copy_tree x)))) = Ret r /\
+            obs_tree r = filter (fun l => within_depth d (lbl_depth l)) (obs_tree x).
+Proof.
+  destruct d as [|k]; cbn [Nat.eqb]; eexists; (split; [reflexivity|]).
+  - rewrite obs_tree_copy. symmetry. apply filter_all. intros; reflexivity.
+  - rewrite depth_cut_obs, !obs_tree_copy. reflexivity.
+Qed.
+
+Theorem subtree_spec c t s d q :
+  s <> [] -> addressed [c] t s = [q] ->
+  exists r, get_subtree [c] t s d = Ret r /\ obs_tree r = expected_subtree t q d.
+Proof.
+  intros Hs Ha. unfold get_subtree. cbn [is_nil]. destruct s as [|x s]; [contradiction|]. cbn [is_nil].
+  unfold find_path. rewrite find_paths_addressed, Ha.
+  destruct (addressed_valid [c] t (x :: s) q) as [y Hy]; [rewrite Ha; left; reflexivity|].
+  rewrite subtree_at_copy, Hy. cbn [option_map].
+  destruct (subtree_tail_ret y d) as [r [Hr Ho]]. exists r. split; [exact Hr|].
+  rewrite Ho. symmetry. apply (expected_subtree_spec q t y d Hy).
+Qed.
+
+Theorem subtree_root_spec tsep t d :
+  tsep <> [] ->
+  exists r, get_subtree tsep t [] d = Ret r /\ obs_tree r = expected_subtree t [] d.
+Proof.
+  intros Ht. unfold get_subtree. destruct tsep as [|x tsep]; [contradiction|]. cbn [is_nil].
+  destruct (subtree_tail_ret t d) as [r [Hr Ho]]. exists r. split; [exact Hr|].
+  rewrite Ho. symmetry. apply (expected_subtree_spec [] t t d). reflexivity.
+Qed.
+
+(* argument validation *)
+Theorem prune_no_arguments tsep t exact sep :
+  prune_tree tsep t (PStr []) exact sep 0 = Raise ValueError /\
+  prune_tree tsep t (PList []) exact sep 0 = Raise ValueError.
+Proof. split; reflexivity. Qed.
